@@ -9,6 +9,7 @@ sharded run under the rule of C09.
 from __future__ import annotations
 
 import copy
+import random
 
 from kverif.common import Deadline, case_rng, stable_hash, tier_value
 
@@ -18,7 +19,7 @@ RULE = ('topologies (pp,dp,mp) with world <= 8 (thorough 16), 1-4 layers per sta
         'for a generated run of T steps EVERY boundary 1..T is used as checkpoint position (a second run per position); non-trivial: world>1; distinct = (topology, blocks, position, variant)')
 ASSUMPTIONS = ['save and load are separated by a harness join of all ranks (a resume is a new job)', 'Megatron/DeepSpeed stand-ins as in C11',
                'the checkpoint directory is a fresh temporary directory outside /repo and /verif, removed afterwards']
-REQUIRED = ['state_checks', 'restore_checks', 'resume_equal_checks', 'positions_checked']
+REQUIRED = ['state_checks', 'restore_checks', 'resume_equal_checks', 'positions_checked', 'older_state_loaded_between_two_loads_of_the_checkpoint']
 
 
 def run_case(rng, res, idx, tier):
@@ -47,6 +48,7 @@ def run_case(rng, res, idx, tier):
         sp = copy.deepcopy(spec)
         sp['factor_dir'] = rng.random() < 0.4
         sp['load_same_object'] = rng.random() < 0.5
+        sp['load_old_between'] = random.Random(stable_hash('load-old-between', idx, c)).random() < 0.4
         compute = not (I == 1 and rng.random() < 0.3) and not (c % I == 0 and rng.random() < 0.2)
         tail = [('train',)] * (T - c) + [('train',)]
         # periodic saving: the same object may be asked for its state several times before the checkpoint that is restored
@@ -112,7 +114,12 @@ def run_case(rng, res, idx, tier):
             ok_, missing_ = e0[r].get('loaded_state_intact', (True, []))
             res.count('loaded_state_intact_checks')
             if not ok_:
-                return res.violation(f'rank {r}: load_state_dict modified the state it was given (keys removed: {missing_}); an in-memory checkpoint could not be loaded a second time', case)
+                return res.violation(f'rank {r}: load_state_dict modified the state it was given (' + (f'keys removed: {missing_}' if missing_ else 'factor values changed' + (' after an older state was loaded in between' if e0[r].get('reloaded_after_older') else '')) + '); an in-memory checkpoint could not be loaded a second time', case)
+            if e0[r].get('reloaded_after_older'):
+                res.count('older_state_loaded_between_two_loads_of_the_checkpoint')
+            for e_ in recs[r]['sd']:
+                if e_ is not e0[r] and e_.get('loaded_state_intact_at_end') is False:
+                    return res.violation(f'rank {r}: an older in-memory state that was loaded (and replaced by a later load) no longer holds what was saved', case)
             if e0[r].get('loaded_state_intact_at_end') is False:
                 return res.violation(f'rank {r}: the in-memory state that was loaded at boundary {c} no longer holds the saved factors after training went on (the restored factors alias it)', case)
             after = e0[r].get('after_load', {})
